@@ -439,6 +439,7 @@ def build(s: dict, ch: Optional[dict] = None, rng: Optional[random.Random] = Non
                     transparent=s["transparent"], pixel_w=ch["pixel_ratio"][0], pixel_h=ch["pixel_ratio"][1], trailer=ch["trailer"])
     if ch["unused"]:
         sp.flags = rng.randrange(2 ** 32)
+        sp.speed = rng.choice([0, 1, 100, 250, 65535, rng.randrange(65536)])      # deprecated: every frame carries its own duration
         sp.ncolors = rng.randrange(65536)
         sp.grid = (rng.randint(-32768, 32767), rng.randint(-32768, 32767), rng.randrange(65536), rng.randrange(65536))
         if s["tilesets"] and rng.random() < 0.5:
